@@ -55,7 +55,7 @@ def short(cls):
 
 
 PIPE_RULES = set('K1 K2 K2s K2u K3 K4 K5 K6 K7 K8 K9 K10 K11 T1 T2 Q1 Q2 Q3 P1 P2 P3 P4 P5 O1 O2 O3 O4 C1 E1 E2 E4 H1 H2 H3 F3 F3p F4 F5 F6 '
-                 'S1 S2 S3 S4 B3 B4 B7 DN Z1 A1 R1 R2 R3 R4 R5 P6 K12 H4 E5 K2a O5 K13 P7 P8 P9 K14 Q4 Q5 K5v F7'.split())
+                 'S1 S2 S3 S4 B3 B4 B7 DN Z1 A1 R1 R2 R3 R4 R5 P6 K12 H4 E5 K2a O5 K13 P7 P8 P9 K14 Q4 Q5 K5v F7 M1 O6 O7 K15 K9c F8'.split())
 
 PIPELINE_CLASSES = ('Vector::BLF::File', 'Vector::BLF::UncompressedFile', 'Vector::BLF::CompressedFile', 'Vector::BLF::LogContainer',
                     'Vector::BLF::ObjectHeaderBase', 'Vector::BLF::AbstractFile')
